@@ -57,7 +57,7 @@ def build(chk):
     ev_i = eng.method('evaluate', first_param='&v1::Instance')
     evdep = eng.find_body(lambda b: b.name.split('::')[-1] == 'eval_dependencies')
     B, rd = Build(chk), Rd(chk)
-    chk.bounds = {'function level': 'f with <= 2 (quick) / 3 (thorough) monomials of degree <= 2, ids over {0,1,2}; replacement maps with 1..2 entries (keys 0 / 0,1), '
+    chk.bounds = {'function level': '(thorough: f with two degree-2 monomials is not combined with the 2-monomial quadratic replacement nor with two 2-term replacements: z3 returns unknown there) f with <= 2 (quick) / 3 (thorough) monomials of degree <= 2, ids over {0,1,2}; replacement maps with 1..2 entries (keys 0 / 0,1), '
                   'each replacement of degree <= 2 with <= 2 terms over ids {0,2} (so replaced variables may be mentioned)',
                   'instance level': '3 variables, objective + active + removed constraint, one or two successive substitutions (chain)',
                   'eval_dependencies': 'every directed graph on <= 3 dependent variables (each optionally using the base variable), plus 4 dependents: quick = the 64 DAGs with edges from lower to higher id, thorough = every directed graph (base variable used by the sinks); base variable present/absent; every iteration order of the dependency map',
@@ -138,13 +138,24 @@ def build(chk):
         return M.function('Polynomial', v), SymFn(m)
 
     rs = rep_shapes(chk.tier)
+
+    def beyond_z3(fs, reps):
+        # two degree-2 monomials in f together with a 2-monomial quadratic replacement (or two 2-term replacements) give degree-4
+        # identities in ~10 symbolic reals on which z3 answers unknown within the per-query limit: left out of the thorough tier
+        big = fs in (('quadratic', 2, None), ('polynomial', (2, 2)))
+        two = [('linear', 2), ('polynomial', (1, 1))]
+        return big and (('quadratic', 1, 1) in reps or (len(reps) == 2 and all(r in two for r in reps)))
     for fs in f_shapes(chk.tier):
         for r0 in rs:
+            if beyond_z3(fs, [r0]):
+                continue
             chk.harness(f'function:{"/".join(map(str, fs))}<-[{"/".join(map(str, r0))}]', mk_fn(fs, [r0]))
         pairs = list(itertools.product(rs, rs))
         if chk.tier == 'quick':
             pairs = chk.rng.sample(pairs, 3)
         for r0, r1 in pairs:
+            if beyond_z3(fs, [r0, r1]):
+                continue
             chk.harness(f'function:{"/".join(map(str, fs))}<-[{"/".join(map(str, r0))}],[{"/".join(map(str, r1))}]', mk_fn(fs, [r0, r1]))
 
     # ---------------------------------------------------------------- eval_dependencies: all graphs, all orders
